@@ -209,7 +209,12 @@ func build(s ARSpec) *fixture {
 	ar := &remoteexecution.ActionResult{ExitCode: 3}
 	for i := 0; i < s.Files; i++ {
 		pos := fmt.Sprintf("of%d", i)
-		ar.OutputFiles = append(ar.OutputFiles, &remoteexecution.OutputFile{Path: "out/" + pos, Digest: s.file(pos), IsExecutable: i == 1})
+		of := &remoteexecution.OutputFile{Path: "out/" + pos, Digest: s.file(pos), IsExecutable: i == 1}
+		if i == 1 {
+			// the second output file also carries its contents inline: the digest still references a CAS object
+			of.Contents = []byte("inlined contents of " + pos)
+		}
+		ar.OutputFiles = append(ar.OutputFiles, of)
 	}
 	switch s.Stdout {
 	case 1:
@@ -219,7 +224,9 @@ func build(s ARSpec) *fixture {
 	}
 	switch s.Stderr {
 	case 1:
+		// stderr by digest AND inline (stdout: digest only)
 		ar.StderrDigest = s.file("stderr")
+		ar.StderrRaw = []byte("inline stderr next to its digest")
 	case 2:
 		ar.StderrRaw = []byte("inline stderr")
 	}
